@@ -3,8 +3,11 @@ package c14
 import (
 	"context"
 	"crypto/sha256"
+	"errors"
 	"fmt"
 	"math/big"
+	stdnet "net"
+	"net/http"
 	"sort"
 	"strings"
 	"sync"
@@ -13,12 +16,14 @@ import (
 
 	"github.com/DOSNetwork/core/dosnode"
 	"github.com/DOSNetwork/core/onchain"
+	"github.com/DOSNetwork/core/p2p"
 	"github.com/DOSNetwork/core/share"
 	dkg "github.com/DOSNetwork/core/share/dkg/pedersen"
 	vss "github.com/DOSNetwork/core/share/vss/pedersen"
 	"github.com/DOSNetwork/core/sign/tbls"
 	"github.com/DOSNetwork/core/suites"
 	"github.com/dedis/kyber"
+	"github.com/golang/protobuf/proto"
 
 	"verifharness/internal/dkgnet"
 	"verifharness/internal/doubles"
@@ -30,15 +35,22 @@ import (
 //	full p=grouping n=<n> fault=<none|silent:j|dropdeal:j|dropresp:j|loseack:j> cancel=<never|ev<k>>
 //	     the real pdkg.Grouping of every member over an in-memory network; cancellation is
 //	     injected at the k-th network event (message boundary);
-//	full p=query.<sys|user> role=<submitter|member> bt=<0|1> peers=<k>
+//	full p=query.<sys|user|url> role=<submitter|member> bt=<0|1> peers=<k> [req=fail|block] [chain=fail]
+//	     [url=ok|slow|refuse|badsel]
 //	     the real handleQuery + queryLoop of one node over doubles; bt=0: the context handleQuery
-//	     creates is already expired, bt=1: it never fires within the run.
+//	     creates is already expired, bt=1: it never fires within the run.  req: the peer refuses
+//	     (p.Request fails at once) / is silent (p.Request returns when the context ends); chain=fail: the
+//	     report call fails; url (query.url): a loopback document server that answers at once, after
+//	     300 ms, not at all (nothing listens), or a selector that does not compile.
+//	full p=grouping … live=<ms>: the session may run that long before the harness cancels it (default 3000).
 //
 // Observation: `clean` when afterwards (context cancelled, grace period) no goroutine of the
 // pipeline's functions is left and the channels handed to the caller are closed; else `dirty`.
 
 type fullScen struct {
 	p, fault, cancel, role, mode string
+	url, req, chain              string // query lines: document server / p.Request / chain call behaviour
+	live                         int    // grouping lines: how long (ms) the session may run before the harness cancels it
 	n, bt, peers                 int
 	reps                         int
 	raw                          string
@@ -51,7 +63,11 @@ func parseFull(line string) *fullScen {
 			m[w[:i]] = w[i+1:]
 		}
 	}
-	f := &fullScen{p: m["p"], fault: m["fault"], cancel: m["cancel"], role: m["role"], mode: m["mode"], n: 3, bt: 1, reps: 3, raw: line}
+	f := &fullScen{p: m["p"], fault: m["fault"], cancel: m["cancel"], role: m["role"], mode: m["mode"], n: 3, bt: 1, reps: 3, raw: line,
+		url: m["url"], req: m["req"], chain: m["chain"], live: 3000}
+	if v := m["live"]; v != "" {
+		f.live = h.Atoi(v)
+	}
 	if v := m["n"]; v != "" {
 		f.n = h.Atoi(v)
 	}
@@ -204,7 +220,7 @@ func fullGrouping(f *fullScen, self int, baseline map[int]bool) (string, error) 
 	go func() { wg.Wait(); close(done) }()
 	select {
 	case <-done:
-	case <-time.After(3 * time.Second):
+	case <-time.After(time.Duration(f.live) * time.Millisecond):
 	}
 	cancel()
 	// grace period: the retry loops sleep 500 ms between attempts
@@ -322,7 +338,21 @@ func fullQuery(f *fullScen, self int, baseline map[int]bool) (string, error) {
 		me = (sub + 1) % n
 	}
 	net := doubles.NewP2P(ids[me], 50)
+	switch f.req {
+	case "fail": // the peer refuses: p.Request fails at once (a crashed submitter)
+		net.OnRequest = func(ctx context.Context, from, to []byte, m proto.Message) (p2p.P2PMessage, error) {
+			return p2p.P2PMessage{}, errors.New("double: connection refused")
+		}
+	case "block": // the peer is silent: p.Request returns when the caller's context ends
+		net.OnRequest = func(ctx context.Context, from, to []byte, m proto.Message) (p2p.P2PMessage, error) {
+			<-ctx.Done()
+			return p2p.P2PMessage{}, ctx.Err()
+		}
+	}
 	chain := &doubles.Chain{BlockTime: uint64(f.bt), Notify: make(chan struct{}, 4)}
+	if f.chain == "fail" {
+		chain.Err = errors.New("double: chain call failed")
+	}
 	node := dosnode.VerifNewNode(ids[me], net, chain, nil, 21, doubles.NewLogger())
 	go node.VerifQueryLoop()
 	defer node.VerifCancel()
@@ -344,9 +374,41 @@ func fullQuery(f *fullScen, self int, baseline map[int]bool) (string, error) {
 		}
 		net.Deliver(ids[j], &vss.Signature{Index: ptype, RequestId: rid.Bytes(), Content: content, Signature: sig})
 	}
+	url, selector := "", ""
+	grace := 20 * time.Millisecond
+	if f.p == "query.url" {
+		ptype = uint32(onchain.TrafficUserQuery)
+		selector = "$.a"
+		switch f.url {
+		case "refuse":
+			url = "http://127.0.0.1:1/nothing" // nothing listens: the fetch fails at once
+		default:
+			// a document server on the loopback interface: ok / badsel answer at once, slow after 300 ms
+			ln, err := stdnet.Listen("tcp", "127.0.0.1:0")
+			if err != nil {
+				return "", err
+			}
+			defer ln.Close()
+			delay := time.Duration(0)
+			if f.url == "slow" {
+				delay = 300 * time.Millisecond
+				grace = 600 * time.Millisecond // look only after the fetch has returned
+			}
+			if f.url == "badsel" {
+				selector = "$..[" // does not compile
+			}
+			srv := &http.Server{Handler: http.HandlerFunc(func(w http.ResponseWriter, r *http.Request) {
+				time.Sleep(delay)
+				w.Write([]byte(`{"a": 1}`))
+			})}
+			go srv.Serve(ln)
+			defer srv.Close()
+			url = "http://" + ln.Addr().String() + "/doc"
+		}
+	}
 	done := make(chan struct{})
 	go func() {
-		node.VerifHandleQuery(ids, pub, shares[me], "group-1", rid, last, seed, "", "", ptype)
+		node.VerifHandleQuery(ids, pub, shares[me], "group-1", rid, last, seed, url, selector, ptype)
 		close(done)
 	}()
 	returned := false
@@ -355,7 +417,7 @@ func fullQuery(f *fullScen, self int, baseline map[int]bool) (string, error) {
 		returned = true
 	case <-time.After(3 * time.Second):
 	}
-	time.Sleep(20 * time.Millisecond)
+	time.Sleep(grace)
 	if !settle(self) {
 		return "unsettled", nil
 	}
